@@ -336,6 +336,10 @@ func isFaultErr(err error, token string) bool {
 	if errors.As(err, &sf) && sf.Token == token {
 		return true
 	}
+	if s := faultFlavour(faultSeqOf(token)); s != nil {
+		// a well-known error value was injected at this call: identity, or its text after re-wrapping
+		return errors.Is(err, s) || strings.Contains(err.Error(), s.Error())
+	}
 	return strings.Contains(err.Error(), token)
 }
 
